@@ -536,6 +536,11 @@ class Interp:
         c = cur()
         mods = assigned_names(s.body) | ({s.target.id} if isinstance(s, ast.For) and isinstance(s.target, ast.Name) else set())
         unmanaged = {m for m in mods if m not in rule.modifies}
+        # the sidecar rule names the loop's variables: if one of them no longer exists (renamed / removed in the code) the rule
+        # does not describe this loop any more - the obligations are undecided, never refuted
+        missing = [nm for nm in rule.modifies if nm not in mods and nm not in fr.vars]
+        if missing:
+            raise OutOfReach(f"loop rule for {qual} loop {ordinal} refers to variable(s) {missing} that the code no longer has")
 
         def scrub():
             # variables assigned in the body but not described by the invariant are unknown afterwards
